@@ -11,6 +11,8 @@ open Rox
 by `decide` in `Rox.Props.C01`). -/
 structure TablesOK (T : Tables) : Prop where
   space_ascii : ∀ b : UInt8, byteIsSpace T b = true → b < 128
+  lbr_not_space : byteIsSpace T bLBr = false
+  gt_not_space : byteIsSpace T bGt = false
 
 /-- one step of the cursor: forward, still a well-formed cursor -/
 def Step (txt : Bytes) (s s' : Stream) : Prop := Adv s s' ∧ SOk txt s'
